@@ -366,7 +366,9 @@ func (g *Gen) call(v *ssa.Call, c *ssa.CallCommon, ins ssa.Instruction) {
 			}
 			t, err := g.eval(en.Expr, env2)
 			if err != nil {
-				g.bindFail(en, fmt.Errorf("at call of %s in %s: %v", ci.key, g.name, err))
+				if !isUnbound(err) { // an assumption that cannot be stated here is simply not made
+					g.bindFail(en, fmt.Errorf("at call of %s in %s: %v", ci.key, g.name, err))
+				}
 				continue
 			}
 			g.assume(t.S)
